@@ -460,7 +460,9 @@ def length(a):
     if tag == 'records':
         return length(a[1])
     if tag == 'lin' and a[2]:
-        return length(a[2][0][0])
+        arrs = [x for x, c in a[2] if not is_scalar(x)]
+        vec = [x for x in arrs if x[0] != 'param'] or arrs          # an element-wise sum is as long as its array operands (numbers are broadcast)
+        return length(vec[0]) if vec else length(a[2][0][0])
     if tag in ('cmp0',):
         return length(a[2])
     if tag in ('not', 'binv'):
